@@ -40,7 +40,7 @@ ASSUMPTIONS = ["values are compared numerically after JSON parsing (a lookup can
                "stream-steps comes last in a partition (it runs to the stop time)"]
 FAULT_KINDS = []
 PROBES = ["decimal_dt", "fractional_start", "mixed_partition", "per_step_settings", "equation_subset_without_dependencies", "two_scenarios_different_runspecs",
-          "stream_in_partition", "points_step_setting"]
+          "stream_in_partition", "points_step_setting", "runspecs_in_session_settings"]
 EXHAUSTIVE = {"quick": False, "thorough": False}
 
 STARTS = [0.0, 1.0, 2.5]
@@ -97,8 +97,10 @@ def generate(spec):
     r = rng.random()
     if r < 0.4:
         eqs = list(els)
-    elif r < 0.7:
+    elif r < 0.6:
         eqs = rng.sample(T.STOCKS[template], 1)          # a stock without its flows: lazy evaluation matters
+    elif r < 0.75 and template == "T3":
+        eqs = ["half"]                                   # a converter on a stock, neither the stock nor its flow is watched
     else:
         eqs = rng.sample(els, rng.randint(1, len(els)))
     case = {"property": PROPERTY,
@@ -109,6 +111,14 @@ def generate(spec):
     if rng.random() < 0.3:
         d2 = rng.choice([x for x in [1.0, 0.5, 0.25] if x != dt] or [0.5])
         case["second"] = {"start": start, "dt": d2, "stop": start + d2 * rng.choice([3, 6, 9])}
+    if rng.random() < 0.25:
+        # the session itself re-parameterises the scenario's run specs (begin_session settings)
+        d3 = rng.choice([x for x in [1.0, 0.5, 0.25, 0.2] if x != dt])
+        s3 = rng.choice([start, start, 0.0, 1.0])
+        n3 = rng.choice([4, 6, 9])
+        case["begin_runspecs"] = {"starttime": s3, "dt": d3, "stoptime": float(T.grid(s3, s3 + d3 * (n3 - 1) + d3 / 2, d3)[-1])}
+        case["partition"] = gen_partition(rng, n3)
+        case["step_settings"] = gen_step_settings(rng, template, n3) if case["step_settings"] else {}
     return case
 
 
@@ -116,6 +126,20 @@ def generate(spec):
 
 def dec_grid(cfg):
     return [T.label(t) for t in T.grid(cfg["start"], cfg["stop"], cfg["dt"])]
+
+
+def session_cfg(case):
+    """the run spec the session (and every batch run after it) is on"""
+    cfg = dict(case["config"])
+    rs = case.get("begin_runspecs")
+    if rs:
+        cfg["start"], cfg["stop"], cfg["dt"] = rs["starttime"], rs["stoptime"], rs["dt"]
+    return cfg
+
+
+def begin_settings(case):
+    rs = case.get("begin_runspecs")
+    return {MGR: {SCN: {"runspecs": dict(rs)}}} if rs else {}
 
 
 def num(x):
@@ -150,7 +174,7 @@ def settings_for(case, k):
 
 def reference(case):
     """closed-form trajectory with piecewise-constant parameters (clause iii)"""
-    cfg = case["config"]
+    cfg = session_cfg(case)
     tpl = cfg["template"]
     grid = dec_grid(cfg)
     c0, p0, i0 = T.merged(tpl)
@@ -210,7 +234,7 @@ def batch_channels(case, res, log):
     if not ok:
         return None
     # the batch frame itself equals the closed form (anchors the relational oracle)
-    ref = reference({**case, "step_settings": {}})
+    ref = reference({**case, "step_settings": {}, "begin_runspecs": None})
     refw = {eq: {t: ref[k][eq] for k, t in enumerate(grid)} for eq in eqs}
     if not check_series(res, "run_scenarios/df vs closed form", base, grid, refw, eqs, clause_values="C09.ii-batch-differs-from-closed-form"):
         return None
@@ -252,12 +276,16 @@ def batch_channels(case, res, log):
 def session_channel(case, res, log, want, ref):
     cfg = case["config"]
     eqs = case["equations"]
-    grid = dec_grid(cfg)
+    grid = dec_grid(session_cfg(case))
     wcfg = {"bases": [{"template": cfg["template"], "start": cfg["start"], "stop": cfg["stop"], "dt": cfg["dt"]}],
             "managers": [{"name": MGR, "base": 0, "scenarios": {SCN: {}}}]}
     w = ScenarioWorld(wcfg, log, res)
     b = w.setup()
-    b.begin_session(scenarios=[SCN], scenario_managers=[MGR], equations=list(eqs), starttime=cfg["start"])
+    if case.get("begin_runspecs"):
+        res.probe("runspecs_in_session_settings")
+        b.begin_session(scenarios=[SCN], scenario_managers=[MGR], equations=list(eqs), settings=begin_settings(case))
+    else:
+        b.begin_session(scenarios=[SCN], scenario_managers=[MGR], equations=list(eqs), starttime=cfg["start"])
     acc = {}
     k = 0
     guard = 0
@@ -298,6 +326,11 @@ def session_channel(case, res, log, want, ref):
                 break
     except Exception as e:
         res.violate("C09.i-equation-missing", {"channel": "session_results", "exception": type(e).__name__, "message": str(e)[:100]})
+    if case.get("begin_runspecs") and not res.violations:
+        b.end_session()
+        df = b.run_scenarios(scenarios=[SCN], scenario_managers=[MGR], equations=list(eqs), series_names={}, return_format="df")
+        base = {eq: [(float(t), v) for t, v in df[eq].to_dict().items()] for eq in df.columns} if df is not None else {}
+        check_series(res, "run_scenarios/df after session settings", base, grid, None if case["step_settings"] else {eq: dict(ser[eq]) for eq in eqs}, eqs)
     try:
         b.destroy()
     except Exception:
@@ -318,11 +351,15 @@ def rest_channel(case, res, log, want, ref):
         except Exception:
             res.violate("C09.i-equation-missing", {"channel": "REST /run", "status": r.status, "body": str(r.text)[:160]})
             return
-        if not check_series(res, "REST /run", ser, grid, want, eqs):
+        if not check_series(res, "REST /run", ser, grid, None if case.get("begin_runspecs") else want, eqs):
             return
         r = w.post("/start-instance", {"timeout": {"hours": 1}})
         iid = r.body["instance_uuid"]
-        r = w.post("/%s/begin-session" % iid, {"scenario_managers": [MGR], "scenarios": [SCN], "equations": list(eqs)})
+        body = {"scenario_managers": [MGR], "scenarios": [SCN], "equations": list(eqs)}
+        if case.get("begin_runspecs"):
+            body["settings"] = begin_settings(case)
+            grid = dec_grid(session_cfg(case))
+        r = w.post("/%s/begin-session" % iid, body)
         acc = {}
         k = 0
         for part in case["partition"]:
@@ -412,10 +449,12 @@ def execute(case):
         want = batch_channels(case, res, log)
         if want is not None and not res.violations:
             ref = None
-            if case["step_settings"]:
+            if case["step_settings"] or case.get("begin_runspecs"):
                 r = reference(case)
-                grid = dec_grid(cfg)
+                grid = dec_grid(session_cfg(case))
                 ref = {eq: {t: r[k][eq] for k, t in enumerate(grid)} for eq in case["equations"]}
+            if case.get("begin_runspecs"):
+                want = ref      # the session is on another run spec than the first batch run
             session_channel(case, res, log, want, ref)
             if not res.violations:
                 c2 = case
@@ -431,7 +470,7 @@ def execute(case):
                         else:
                             newp.append(p)
                     # expand fully into single steps up to the grid length
-                    n = len(dec_grid(cfg))
+                    n = len(dec_grid(session_cfg(case)))
                     c2["partition"] = [{"kind": "run_step"}] * n
                 rest_channel(c2, res, log, want, ref)
     log.add("violations", [v.clause for v in res.violations])
